@@ -116,8 +116,11 @@ def cases(tier, seed):
     settings = ("A", "B")
 
     def add(spaces, re_kind, conv, setting):
+        # models / shapes / geom: flat descriptive labels (convenient for VERIF_FILTER and for reading replays)
         cs.append(dict(kind="cf", spaces=spaces, re_kind=re_kind, conv=conv, setting=setting,
-                       grid="corners" if thorough else "plus", seed=seed))
+                       grid="corners" if thorough else "plus", seed=seed, n_spaces=len(spaces),
+                       models=_models_tag(spaces), shapes="|".join("x".join(map(str, s["shape"])) for s in spaces),
+                       geom="+".join(sorted({s["geom"] for s in spaces}))))
 
     # ---- single regular grids; (Hartley convention, kind, setting): thorough all 8, quick a pairwise covering 4
     if thorough:
@@ -139,7 +142,8 @@ def cases(tier, seed):
                 for zm in ("tuple", "none"):
                     for st in settings:
                         cs.append(dict(kind="simple", shape=shape, dist=dist, flex=fl, asp=ap, offset_std=zm,
-                                       setting=st, conv=CONVS[0], grid="star" if thorough else "plus", seed=seed))
+                                       setting=st, conv=CONVS[0], grid="star" if thorough else "plus", seed=seed,
+                                       shapes="x".join(map(str, shape))))
     # ---- HEALPix
     for nside in ((1, 2) if thorough else (1, 2)):
         for re_kind in ("power", "amplitude"):
